@@ -156,7 +156,9 @@ EXPORT errno_t _wctomb_s_chk(int *restrict retvalp, char *restrict dest,
             memcpy(dest, tmpbuf, (size_t)len);
         }
     } else {
-        len = *retvalp = wctomb(dest, wc);
+        /* state query: nothing is stored, stale errno is not an error */
+        *retvalp = wctomb(NULL, wc);
+        return RCNEGATE(EOK);
     }
 
     if (likely(len > 0 && (rsize_t)len < dmax)) {
